@@ -22,7 +22,9 @@ static void viol(const std::string& key, const std::string& what, const std::str
 static bool wait_for(std::function<bool()> f, double sec) { double end = lv::now() + sec; while (lv::now() < end) { if (f()) return true; lv::msleep(2); } return f(); }
 
 // ------------------------------------------------------------------ scripted raw server
-enum Behaviour { B_IMMEDIATE, B_DELAYED, B_DRIBBLE, B_CHUNKED, B_CLOSE_AFTER, B_NEVER, B_LATE, B_COUNT };
+enum Behaviour { B_IMMEDIATE, B_DELAYED, B_DRIBBLE, B_CHUNKED, B_CLOSE_AFTER, B_NEVER, B_LATE, B_COUNT,
+                 // failing responses for the client-level part of C04 (the connection stays open afterwards)
+                 B_TOOLONG_ONE_PACKET = 20, B_TOOLONG_SECOND_PACKET, B_BAD_STATUS_LINE, B_BAD_COOKIE, B_BAD_CHUNK_SIZE, B_BOTH_FRAMINGS };
 static const char* BNAME[] = {"immediate", "delayed", "dribbled", "chunked", "close-after-response", "never-answered", "answered-after-timeout"};
 struct ReqLog { int id; int conn; int behaviour; bool answered; double at; };
 struct RawServer {
@@ -71,6 +73,18 @@ struct RawServer {
             std::string resp;
             if (b == B_CHUNKED) { resp = head + "Transfer-Encoding: chunked\r\n\r\n"; size_t pos = 0; Rng r((uint64_t)id); while (pos < body.size()) { size_t n = std::min<size_t>(body.size() - pos, (size_t)r.range(1, 300)); char hx[16]; snprintf(hx, sizeof hx, "%zx", n); resp += std::string(hx) + "\r\n" + body.substr(pos, n) + "\r\n"; pos += n; } resp += "0\r\n\r\n"; }
             else resp = head + "Content-Length: " + std::to_string(body.size()) + "\r\n\r\n" + body;
+            if (b >= B_TOOLONG_ONE_PACKET) {
+                std::string filler((size_t)param, 'A');
+                if (b == B_TOOLONG_ONE_PACKET) respond(fd, head + "Content-Length: " + std::to_string(filler.size()) + "\r\n\r\n" + filler, false);
+                else if (b == B_TOOLONG_SECOND_PACKET) { std::string all = head + "Content-Length: " + std::to_string(filler.size()) + "\r\n\r\n" + filler; size_t first = std::min<size_t>(all.size() - 1, head.size() + 60); ::send(fd, all.data(), first, MSG_NOSIGNAL); lv::msleep(40); ::send(fd, all.data() + first, all.size() - first, MSG_NOSIGNAL); }
+                else if (b == B_BAD_STATUS_LINE) respond(fd, "HTTP/1.1 2x0 OK\r\nX-Old: 1\r\nContent-Length: 3\r\n\r\nabc", false);
+                else if (b == B_BAD_COOKIE) respond(fd, head + "X-Old: 1\r\nSet-Cookie: novalue\r\nContent-Length: 3\r\n\r\nabc", false);
+                else if (b == B_BAD_CHUNK_SIZE) respond(fd, head + "X-Old: 1\r\nTransfer-Encoding: chunked\r\n\r\n3\r\nabc\r\nzz\r\n", false);
+                else respond(fd, head + "X-Old: 1\r\nContent-Length: 3\r\nTransfer-Encoding: chunked\r\n\r\n3\r\nabc\r\n0\r\n\r\n", false);
+                { std::lock_guard<std::mutex> g(m); log[li].answered = true; }
+                lastActivity = lv::now();
+                continue;
+            }
             if (b == B_NEVER) continue;
             if (b == B_DELAYED) lv::msleep(param >= 600 && param < 640 ? param : 10 + param % 40);
             if (b == B_LATE) lv::msleep(param);   // param = client's time-out + margin
@@ -246,6 +260,47 @@ static void c15_batch(long idx, long n, uint64_t seed) {
     Json c; for (auto& kv : g_counts) c.num(kv.first, kv.second);
     s.raw("counts", c.done());
     emit(s.done());
+}
+// ------------------------------------------------------------------ C04 at the client: a response after a FAILED response on the same pooled connection
+static void run_c04c(long cases) {
+    Rng r(g_opts.seed * 5021 + (uint64_t)g_opts.shard);
+    static const int PRED[] = {B_TOOLONG_ONE_PACKET, B_TOOLONG_SECOND_PACKET, B_BAD_STATUS_LINE, B_BAD_COOKIE, B_BAD_CHUNK_SIZE, B_BOTH_FRAMINGS};
+    static const char* PNAME[] = {"too-long-in-the-first-packet", "too-long-from-the-second-packet-on", "bad-status-line", "bad-set-cookie-value", "bad-chunk-size", "content-length-and-chunked"};
+    for (long n = 0; n < cases; n++) {
+        long idx = g_opts.shard * 100000L + n;
+        int pk = (int)((n + g_opts.shard) % 6);
+        RawServer srv; srv.start();
+        Http::Experimental::Client client;
+        client.init(Http::Experimental::Client::options().threads(1).maxConnectionsPerHost(1).maxResponseSize(256));
+        std::string base = "http://127.0.0.1:" + std::to_string(srv.port);
+        std::string wt = Json().num("i", idx).str("phase", "c04-client").str("predecessor", PNAME[pk]).done();
+        set_case(idx, wt);
+        double lf = lv::load_factor();
+        // reference: the successor's response on a fresh connection is "tag=<id>;" + filler, status 200 (scripted server)
+        std::atomic<int> d1{0}, d2{0}; int ok1 = 0, ok2 = 0; std::string body2; int code2 = 0; bool oldHeader = false;
+        int param1 = PRED[pk] <= B_TOOLONG_SECOND_PACKET ? r.range(300, 900) : 0;
+        client.get(base + "/t/1/" + std::to_string(PRED[pk]) + "/" + std::to_string(param1)).send().then([&](Http::Response) { ok1 = 1; d1 = 1; }, [&](std::exception_ptr) { d1 = 1; });
+        wait_for([&] { return d1.load() == 1; }, 5.0 * lf);
+        lv::msleep(r.range(0, 60));
+        int param2 = r.range(0, 90);
+        client.get(base + "/t/2/0/" + std::to_string(param2)).send().then([&](Http::Response resp) { ok2 = 1; body2 = resp.body(); code2 = (int)resp.code(); oldHeader = resp.headers().tryGetRaw("X-Old").has_value(); d2 = 1; }, [&](std::exception_ptr) { d2 = 1; });
+        bool fin = wait_for([&] { return d2.load() == 1; }, 5.0 * lf);
+        g_evals++;
+        std::string want = "tag=2;" + std::string((size_t)param2, 'x'); std::string key, detail;
+        int conns = srv.conns.load();
+        if (d1.load() == 1 && ok1 == 0) {   // the predecessor failed as intended; a predecessor that the client accepted is not a case
+            if (conns == 1) {               // and the successor went over the same connection
+                if (!fin) key = "unsettled";
+                else if (!ok2) key = "rejected";
+                else if (code2 != 200 || body2 != want) { key = "differs-from-a-fresh-connection"; detail = "status " + std::to_string(code2) + ", body of " + std::to_string(body2.size()) + " bytes '" + body2.substr(0, 40) + "', want '" + want.substr(0, 40) + "'"; }
+                else if (oldHeader) key = "carries-a-header-of-the-failed-response";
+                count("c04_client_successor_on_same_connection");
+            } else count("c04_client_successor_on_new_connection");
+        } else count("c04_client_predecessor_not_failed");
+        if (!key.empty()) viol(std::string("c04:client:after-failed-response:") + PNAME[pk] + ":" + key, "response after a failed one (" + std::string(PNAME[pk]) + ") on the same pooled connection: " + key + " " + detail, wt);
+        g_distinct.add(std::string("c04c|") + PNAME[pk] + "|" + std::to_string(param2 / 30));
+        client.shutdown(); srv.shutdown();
+    }
 }
 #include <sys/wait.h>
 // every batch runs in a forked child under a watchdog: a wedged client (dead-lock, shutdown that never returns) is a witness
@@ -426,7 +481,7 @@ int main(int argc, char** argv) {
     g_opts = parse_opts(argc, argv);
     install_handlers();
     std::string prop = g_opts.get("prop", "c15");
-    if (prop == "c15") run_c15(g_opts.cases); else run_c02(g_opts.cases);
+    if (prop == "c15") run_c15(g_opts.cases); else if (prop == "c04c") run_c04c(g_opts.cases); else run_c02(g_opts.cases);
     g_distinct.flush();
     Json s; s.str("t", "sum").num("evaluations", g_evals);
     Json c; for (auto& kv : g_counts) c.num(kv.first, kv.second);
